@@ -464,3 +464,36 @@ func init() {
 }
 
 func (w *World) sizes() types.Sizes { return types.SizesFor("gc", "amd64") }
+
+// ------------------------------------------------------------------ C10.R9
+// F55: the block id that consensus votes on names a part set header. Whoever later receives the block in one
+// piece (block sync v0/v1/v2, SaveBlock's callers) derives the parts from the block with
+// MakePartSet(BlockPartSizeBytes) and requires the commit to be for exactly that id. The proposer's header is
+// therefore acceptable only if it is the header the block yields — the same bytes cut into parts of another
+// size, or another protobuf encoding of the same block, reassemble to "the original block hash" but to a block
+// id nobody else can reproduce (the height cannot be synced; one block gets two ids). Rule: the decoded
+// proposal block becomes cs.ProposalBlock only behind
+// block.MakePartSet(BlockPartSizeBytes).HasHeader(ProposalBlockParts.Header()).
+func init() {
+	register("C10", "R9", "K1", "a completed proposal block is accepted only if its part set header is the one the block itself yields with the standard part size", 2, func(c *Ctx) {
+		w := c.W
+		f := c.fn("consensus", "State.addProposalBlockPart")
+		if f == nil {
+			return
+		}
+		fk := funcKey(f)
+		size := c.mustConst("types", "BlockPartSizeBytes")
+		n := 0
+		for _, fs := range w.fieldStoresIn(f, "consensus/types", "RoundState", "ProposalBlock") {
+			v := w.expr(fs.Store.Val)
+			if !strings.Contains(v, "BlockFromProto(") {
+				continue
+			}
+			n++
+			re := `^true\(` + regexp.QuoteMeta(v) + `\.MakePartSet\(` + fmt.Sprint(size) + `\)\.HasHeader\(\w+(?:\.RoundState)?\.ProposalBlockParts\.Header\(\)\)\)$`
+			c.guards(fs.Fn, fs.Store, fk+" :: adopt the reassembled block as the proposal block", 0, guardRe("the parts received are the canonical parts of that block", re))
+		}
+		c.Check(n == 1, fk+" :: adoption of the reassembled block found", w.pos(f.Pos()), "1", fmt.Sprintf("%d", n))
+	})
+	alias("C13", "R13", "C10", "R9", "block sync recomputes the block id from the block: what consensus commits must be reproducible from the block alone")
+}
